@@ -450,11 +450,60 @@ def execute(ctx, cfgs, with_model=True):
         rig.close()
 
 
+def shared_settings_part(ctx, st):
+    """KmipServer hands EVERY session the same auth-settings list object (config.settings['auth_plugins']).  For each
+    plug-in configuration: one settings object, several sessions in a row on it (different certificates, requests that
+    need an identity) - the k-th session is judged exactly like a session on a fresh copy of the configuration."""
+    import copy
+    import props.c12 as c12
+    rig = S.Rig()
+    n = 0
+    try:
+        c12.setup_base(rig)
+        pool = dict(requests_pool())
+        frames = [("create-1.4", pool["create-1.4"]), ("query-1.2", pool["query-1.2"]), ("get-1.0", pool["get-1.0"])]
+        certs = [{"cns": 1, "eku": "client"}, {"cns": 1, "eku": "both"}, {"cns": 2, "eku": "client"},
+                 {"cns": 1, "eku": "client"}]
+        verdicts = dict((f, S.parse_verdict(f, rig.default_version)) for _, f in frames)
+        for label, settings, services in plugin_configs():
+            shared = [(nm, dict(c)) for nm, c in settings]            # ONE object for all sessions of this server
+            pristine = copy.deepcopy(shared)
+            for k, cert in enumerate(certs):
+                rname, frame = frames[k % len(frames)]
+                cfg = {"cert": cert, "tls": True, "plugins": (label, settings, services), "request": (rname, frame)}
+                slugs = S.FakeSlugs(services)
+                before = rig.digest()
+                res = rig.run_session([frame], S.cert_der(cert), tls=True, auth_settings=shared, slugs=slugs, digests=False)
+                its = [it for it in res["iterations"] if it["frame"] is not None]
+                o = {"res": res, "unchanged": before == rig.digest(), "slugs_calls": list(slugs.calls), "its": its,
+                     "calls": [c for it in its for c in it["calls"]], "sent": [x for it in its for x in it["sent"]],
+                     "obs": None, "decode_error": None}
+                if len(o["sent"]) == 1:
+                    try:
+                        o["obs"] = S.decode_response(o["sent"][0], rig.default_version)
+                    except Exception as e:
+                        o["decode_error"] = "%s: %s" % (type(e).__name__, e)
+                n += 1
+                for sig, what in monitor(rig, cfg, o, verdicts[frame]):
+                    ctx.report(sig + ":session-%d-on-shared-settings" % (k + 1),
+                               "session %d on the server's shared auth settings: %s" % (k + 1, what),
+                               {"kind": "shared-settings", "plugins": label, "session": k})
+            if shared != pristine:
+                st["shared_settings_modified"] = st.get("shared_settings_modified", 0) + 1
+    finally:
+        rig.close()
+    st["shared_settings_sessions"] = n
+    return n
+
+
 def run(ctx):
     cfgs = corpus_cfgs() + configurations(ctx.seed, ctx.tier)
     st, divs = execute(ctx, cfgs)
+    nshared = shared_settings_part(ctx, st)
     ctx.coverage.update({
-        "evaluations": st["n"] + (st.get("phased_frames") or 0), "distinct_nontrivial": len(st["distinct"]), "rule": RULE, "samples": st["samples"],
+        "sessions_on_one_shared_settings_object": nshared,
+        "shared_settings_objects_modified_by_sessions": st.get("shared_settings_modified", 0),
+        "evaluations": st["n"] + (st.get("phased_frames") or 0) + nshared, "distinct_nontrivial": len(st["distinct"]), "rule": RULE, "samples": st["samples"],
         "configurations": st["n"], "plugin_configurations": len(plugin_configs()), "certificate_shapes": len(cert_shapes()),
         "identity_established": st["established"], "engine_entered": st["entered"], "answers": dict(st["answers"]),
         "by_certificate": dict(st["by_cert"]), "slugs_http_requests": st["slugs_requests"],
@@ -496,6 +545,18 @@ def replay(ctx, rep):
             return not bad
         finally:
             rig.close()
+    if r.get("kind") == "shared-settings":
+        class _C(object):
+            def __init__(self):
+                self.bad = []
+
+            def report(self, sig, what, rp, no_input=False):
+                if rp.get("plugins") == r["plugins"]:
+                    print("  %s: %s" % (sig, what))
+                    self.bad.append(sig)
+        c = _C()
+        shared_settings_part(c, {})
+        return not c.bad
     if r.get("kind") != "config":
         print("replay: nothing executable in this file (%s)" % r.get("kind"))
         return True
